@@ -26,6 +26,11 @@ pub fn energy(h: &[f64]) -> f64 {
 /// the first frame has settled) and normalised by the pulse height.  Pulse positions and heights are read from a
 /// twin run of the same vocoder with an all-zero spectrum (identity filter).
 pub fn pulse_response(nmcp: usize, stage: usize, log_gain: bool, rate: usize, alpha: f64, beta: f64, spectrum: &[f64]) -> Result<Vec<f64>, String> {
+    pulse_responses(nmcp, stage, log_gain, rate, alpha, beta, spectrum).map(|(settled, _)| settled)
+}
+
+/// (response in the third period, response to the very first pulse - filter initially at rest, nothing overlapping)
+pub fn pulse_responses(nmcp: usize, stage: usize, log_gain: bool, rate: usize, alpha: f64, beta: f64, spectrum: &[f64]) -> Result<(Vec<f64>, Vec<f64>), String> {
     let t0 = rate / 20;
     guarded(|| {
         let run = |stage: usize, lg: bool, beta: f64, sp: &[f64]| -> Vec<f64> {
@@ -46,7 +51,9 @@ pub fn pulse_response(nmcp: usize, stage: usize, log_gain: bool, rate: usize, al
         let start = pulses[2];
         let end = pulses.get(3).copied().unwrap_or(twin.len());
         let y = run(stage, log_gain, beta, spectrum);
-        y[start..end].iter().map(|x| x / twin[start]).collect()
+        let settled: Vec<f64> = y[start..end].iter().map(|x| x / twin[start]).collect();
+        let first: Vec<f64> = y[pulses[0]..pulses[1]].iter().map(|x| x / twin[pulses[0]]).collect();
+        (settled, first)
     })
 }
 
@@ -94,13 +101,15 @@ pub fn run(cases_path: &str, out_path: &str) {
                 let lnk = if lg { g } else { g.ln() };
                 let mut sp = vec![g];
                 sp.extend(ks.iter().map(|k| (*k as f64 / 8.0).acos()));
-                let h = match pulse_response(m + 1, stage, lg, rate, alpha, 0.0, &sp) {
+                let (h, first) = match pulse_responses(m + 1, stage, lg, rate, alpha, 0.0, &sp) {
                     Ok(h) => h,
                     Err(p) => return json!({"ev": "panic", "in": "vocoder(lsp)", "msg": p, "input": c}),
                 };
-                let finite = h.iter().all(|x| x.is_finite());
-                let q = h.len() / 4;
-                let decay = finite && energy(&h[h.len() - q..]) < energy(&h[..q]);
+                let finite = h.iter().all(|x| x.is_finite()) && first.iter().all(|x| x.is_finite());
+                // decay is judged on the response to the very first pulse (filter at rest, no overlapping tails):
+                // in the periodic steady state a slowly decaying resonance need not be weaker at the end of a period
+                let q = first.len() / 4;
+                let decay = finite && energy(&first[first.len() - q..]) < energy(&first[..q]);
                 // reference ln|H| = ln K - (s/2) (ln N - (m+2) ln 4) from the specification's exact N
                 let refs: Vec<f64> = va(&c["grid"]).iter().map(|p| lnk - 0.5 * stage as f64 * ((vi(&p[1]) as f64).ln() - (m as f64 + 2.0) * 4f64.ln())).collect();
                 let peak = refs.iter().cloned().fold(f64::NEG_INFINITY, f64::max);
